@@ -139,7 +139,7 @@ def main():
             res.append((name, verdict))
             print(name, '->', verdict, flush=True)
     res.sort()
-    with open(os.path.join(VERIF, 'mutants/wrappers/RESULTS.txt'), 'w') as f:
+    with open(os.path.join(VERIF, "mutants/wrappers/RESULTS.txt" if not a.only else "mutants/wrappers/RESULTS.partial.txt"), "w") as f:
         for n, v in res:
             f.write('%s -> %s\n' % (n, v))
     surv = [n for n, v in res if v == 'SURVIVED']
